@@ -743,8 +743,12 @@ impl<'a> QGen<'a> {
                 let mx = mn + self.r.below(2);
                 self.tags.push("var-length".into());
                 self.var_len = true;
-                single_run = 0;
-                if mn == 1 && mx == 1 { single_run = 1; }
+                // `*1..1` is planned as a single hop (min = 1, max = Some(1)) and so continues a chain
+                if mn == 1 && mx == 1 {
+                    single_run += 1;
+                } else {
+                    single_run = 0;
+                }
                 format!("*{}..{}", mn, mx)
             } else {
                 single_run += 1;
